@@ -21,7 +21,7 @@ cp "$demo" "$out/"
 [ -f "$src/meta$k.json" ] && cp "$src/meta$k.json" "$out/agent_meta.json"
 wt=/tmp/seedconf/$id-r${SEED_ROUND:-1}-$k
 export GOFLAGS=-mod=mod GOPROXY=off
-rm -rf "$wt"; git -C /repo worktree prune; git -C /repo worktree add -q --detach "$wt" HEAD || exit 2
+rm -rf "$wt"; git -C /repo worktree prune; git -C /repo worktree add -q --detach "$wt" "${SEED_BASE:-HEAD}" || exit 2
 log="$out/confirm.log"; : > "$log"
 cd "$wt"
 res() { echo "$1" | tee -a "$log"; }
